@@ -377,6 +377,9 @@ class World:
                         script['calls'].append(['getState', h])
                         if r.random() < 0.8:
                             script['calls'].append(['setStateBody', h, r.randrange(1000)])
+                    elif r.random() < 0.12:
+                        # add_state of a fresh container for a descriptor (of this transaction) whose state exists in the mdib
+                        script['calls'].append(['addStateDup', h])
             elif z < 0.34 and leafish:
                 # remove a descriptor that has several states (context descriptor with >= 2 context states), or its parent
                 multi = [d for d in leafish if len(self.mdib.context_states.descriptor_handle.get(d, [])) >= 2]
@@ -728,6 +731,25 @@ class World:
                     self.mutate_state(ent.state, n)
                     self.emit(head + f' single {ent.state.StateVersion} {self.sbody(ent.state)}', 'ok')
                 mgr.write_entity(ent)
+            elif op == 'addStateDup':
+                h = call[1]
+                d = m.descriptions.handle.get_one(h, allow_none=True)
+                if d is None:
+                    return
+                if d.is_context_descriptor:
+                    olds = m.context_states.descriptor_handle.get(h, [])
+                    if not olds:
+                        return
+                    st = copy.deepcopy(olds[0])     # same Handle as an existing context state
+                else:
+                    if m.states.descriptor_handle.get_one(h, allow_none=True) is None:
+                        return
+                    st = m.data_model.mk_state_container(d)
+                st.descriptor_container = None
+                # a second state object for something that has its state in the mdib: the API has to refuse the call.
+                # (model: creating what already exists = `addDescr` of an existing handle, refused the same way)
+                self.emit(f'addDescr {H(h)} {H(d.parent_handle)} {kind_of(d)} 0 0 - -', 'ok')
+                mgr.add_state(st)
             elif op == 'addDescr':
                 _, h, tmpl, with_state = call
                 if tmpl is None:
